@@ -50,6 +50,7 @@ def gen_cases(prop, tier, seed):
     for i, c in enumerate(cases):
         c["id"] = "%s-%05d" % (c["entry"], i)
         c["allow_dup_candidates"] = True
+        c["allow_negative_candidates"] = True
         c["ru"] = True if prop == "C02" else bool(stable_hash(c["seed"], "ru") % 2)
         c["kwv"] = [0, 0, 1, 2, 3, 4, 5, 6, 7][stable_hash(c["seed"], "kwv") % 9]      # call variant: default / pre-fitted / weights / lists / layout / float32
     return cases
